@@ -111,6 +111,7 @@ def peerSteps : List String → World → List String → Option (List String)
       else if k ≤ 4 then peerSteps rest { w with rfDead := true, abmfDead := false } acc
       else if k = 9 then peerSteps rest { w with abmfDead := false, rfDead := false } acc
       else none
+    | "K", some b => if b ≤ 1 then peerSteps rest w acc else none   -- which key pair the configuration names: no outcome depends on it
     | "S", some b => if b ≤ 1 then peerSteps rest { w with serial := b == 1 } acc else none
     | "A", some d => peerSteps rest { w with aq := w.aq ++ [d] } acc
     | "R", some d => peerSteps rest { w with rq := w.rq ++ [d] } acc
